@@ -111,6 +111,13 @@ FunctOccs(n, G, K) ==
 FunctTotal(K, occs, cl) == Cardinality({o \in occs : ClassTab(K)[o[2]] = cl})
 FunctNode(K, occs, cl, v) == Cardinality({o \in occs : ClassTab(K)[o[2]] = cl /\ v \in o[1]})
 
+(* expected nonzero entries, straight from the occurrences                       *)
+FunctTriplesDirect(K, occs) ==
+  LET pairs == UNION {{<<ClassTab(K)[o[2]], v>> : v \in o[1]} : o \in occs}
+  IN {<<p[1], p[2], FunctNode(K, occs, p[1], p[2])>> : p \in pairs}
+FunctTotalsDirect(K, occs) ==
+  {<<cl, FunctTotal(K, occs, cl)>> : cl \in {ClassTab(K)[o[2]] : o \in occs}}
+
 (* second formulation: a class contains a fixed bag of sub-classes               *)
 BagGet(b, x) == IF x \in DOMAIN b THEN b[x] ELSE 0
 SubClassBag(K, c) ==
@@ -214,8 +221,13 @@ GenId3 == GenIdTab(3)
 GenId4 == GenIdTab(4)
 GenId(K) == IF K = 3 THEN GenId3 ELSE GenId4
 (* decimal "hash" of a pattern, as two 6-digit halves (10^11 does not fit)        *)
-DecLo(K, c) == Sum({t \in BitsOf(K, c) : NC(K) - t < 6}, LAMBDA t : 10 ^ (NC(K) - t))
-DecHi(K, c) == Sum({t \in BitsOf(K, c) : NC(K) - t >= 6}, LAMBDA t : 10 ^ (NC(K) - t - 6))
+DecLoRaw(K, c) == Sum({t \in BitsOf(K, c) : NC(K) - t < 6}, LAMBDA t : 10 ^ (NC(K) - t))
+DecHiRaw(K, c) == Sum({t \in BitsOf(K, c) : NC(K) - t >= 6}, LAMBDA t : 10 ^ (NC(K) - t - 6))
+Dec3 == Tab([c \in AllCodes(3) |-> <<DecHiRaw(3, c), DecLoRaw(3, c)>>])
+Dec4 == Tab([c \in AllCodes(4) |-> <<DecHiRaw(4, c), DecLoRaw(4, c)>>])
+Dec(K, c) == IF K = 3 THEN Dec3[c] ELSE Dec4[c]
+DecHi(K, c) == Dec(K, c)[1]
+DecLo(K, c) == Dec(K, c)[2]
 
 (* ======================= clauses on a library ================================ *)
 (* lib = sequence of [code, id, n, hi, lo]                                        *)
